@@ -972,6 +972,10 @@ class Interp:
             h = self.reg.ext_models.get(f"attr:{o.cls}.{attr}")
             if h is not None:
                 return h(self, o)
+            inferred = self.infer_field_from_init(o, attr)
+            if inferred is not None:
+                o.fields[attr] = inferred
+                return inferred
             if o.cls in self.reg.exc_bases and attr == "args":
                 return VTuple([])
             # opaque collaborator object: method call handled at call time
@@ -1010,6 +1014,46 @@ class Interp:
         if o is NONE and self.spec_mode:
             raise SpecUndefined(attr)
         return VBoundExt(o, attr)
+
+    def infer_field_from_init(self, o, attr):
+        """a field the contract does not declare (e.g. one a change has just introduced) but that the
+        class's constructor initialises with a literal: an arbitrary value of that literal's type
+        (over-approximation of every state the object can be in)"""
+        cd = self.reg.repo_classes.get(o.cls)
+        n = 0
+        while cd is not None and n < 6:
+            for mname in ("__init__", "__attrs_post_init__"):
+                m = cd.methods.get(mname)
+                if m is None:
+                    continue
+                for node in ast.walk(m.node):
+                    if isinstance(node, ast.Assign) and len(node.targets) == 1 and isinstance(node.targets[0], ast.Attribute) \
+                            and isinstance(node.targets[0].value, ast.Name) and node.targets[0].value.id == "self" \
+                            and node.targets[0].attr == attr and isinstance(node.value, ast.Constant):
+                        c = node.value.value
+                        if c is None:
+                            self.reg.note(f"{o.cls}.{attr}: not declared by the contract; None or some object")
+                            return VOpt(z3.Bool(self.ctx.namer(f"self.{attr}_isnone")), VObj("Undeclared_" + attr))
+                        t = "bool" if isinstance(c, bool) else "int" if isinstance(c, int) else "real" if isinstance(c, float) \
+                            else "str" if isinstance(c, str) else "bytes" if isinstance(c, bytes) else None
+                        if t is not None:
+                            self.reg.note(f"{o.cls}.{attr}: not declared by the contract; arbitrary {t} (initialised with a literal in {mname})")
+                            return self.fresh(t, f"self.{attr}")
+            cd = self.base_classdef(cd)
+            n += 1
+        # assigned somewhere in the class but neither declared by the contract nor initialised with a
+        # literal: the function reads state the contract knows nothing about
+        cd = self.reg.repo_classes.get(o.cls)
+        if cd is not None:
+            for m in cd.methods.values():
+                for node in ast.walk(m.node):
+                    if isinstance(node, (ast.Assign, ast.AugAssign, ast.AnnAssign)):
+                        tgts = node.targets if isinstance(node, ast.Assign) else [node.target]
+                        for tg in tgts:
+                            if isinstance(tg, ast.Attribute) and isinstance(tg.value, ast.Name) and tg.value.id == "self" \
+                                    and tg.attr == attr:
+                                raise OutOfSubset(f"field {o.cls}.{attr} is read but not declared by the contract")
+        return None
 
     def base_classdef(self, cd):
         for b in cd.bases:
